@@ -47,6 +47,13 @@ def gen_script(rng, ncols, nsess, bufs, allow_bad=False):
         c = rng.below(ncols)
         kind = rng.weighted([("writing", 3), ("reading", 1)])
         fault = rng.weighted([("none", 5), ("atBegin", 1), ("atUpdate", 1), ("atBody", 2), ("atFlush", 2), ("atEnd", 1), ("atBodyBase", 2)])
+        if bufs[c] == "ro":
+            # a read-only handle: reading sessions only; now and then a writing session is attempted on it, which must be
+            # refused before any lock is taken
+            if kind == "writing" and rng.chance(1, 2):
+                script.append((c, "writing", "readonly", [(f"ro{len(script)}", b"x")], 1))
+                continue
+            kind = "reading"
         if kind == "reading" and fault == "atFlush":
             fault = "none"
         if fault == "atFlush" and bufs[c] != 1_000_000:
@@ -74,10 +81,10 @@ def gen_script(rng, ncols, nsess, bufs, allow_bad=False):
 
 def model_lines(bufs, script):
     """the same script for the Lean backend model (driver ops of C02 + session faults)"""
-    ops = [f"cnew {c} {b} 0 0 -" for c, b in enumerate(bufs)]
+    ops = [f"cnew {c} {0 if b == 'ro' else b} 0 0 -" for c, b in enumerate(bufs)]
     for (c, kind, fault, puts, cut) in script:
         w = "w" if kind == "writing" else "r"
-        if fault == "atBegin":
+        if fault in ("atBegin", "readonly"):
             continue                                   # nothing happens: the file is never opened
         ops.append(f"begin {c} {w}")
         if fault != "atUpdate":
@@ -98,7 +105,7 @@ def run_script(ctx, probe, path: Path, bufs, script, tag, alias: Path = None, pr
         return None        # each leaked lock costs two probe timeouts; four witnesses are enough
     if path.exists():
         path.unlink()
-    cols = [Collection(path, UkvCollectionBackend, readonly=False, bufsize=b) for b in bufs]
+    cols = [Collection(path, UkvCollectionBackend, readonly=(b == "ro"), bufsize=0 if b == "ro" else b) for b in bufs]
     if probe_inside:
         # let the second process construct its collection object now (its constructor takes the write lock without a
         # timeout): the in-session probes below then answer "timeout" instead of hanging
@@ -115,7 +122,30 @@ def run_script(ctx, probe, path: Path, bufs, script, tag, alias: Path = None, pr
                 # while this session is inside its body a second process must not get the write lock,
                 # and must get a read lock iff this session is a reader
                 return (probe.ask("w", ppath, timeout=8.0, lock_timeout=0.25), probe.ask("r", ppath, timeout=8.0, lock_timeout=0.25))
-        reads = tuple(sorted(expected.keys())[:1]) if (kind == "writing" and si % 2 == 1) else ()
+        if fault == "readonly":
+            ctx.count("session:writing-on-readonly-handle")
+            exc = None
+            try:
+                with col.writing(timeout=5):
+                    for k, v in puts:
+                        col[k] = v
+            except BaseException as e:
+                exc = e
+            ans = probe.ask("w", ppath, timeout=8.0)
+            lib = parse_probe(ans)
+            rtag = {"bufs": bufs, "script": tag, "at": si}
+            if exc is None:
+                ctx.violation("C04:read-only-handle-wrote", f"session {si}: a writing session on a read-only handle was accepted", rtag)
+            if lib is None:
+                ctx.violation("C04:lock-not-released-after-writing-session-fault-readonly",
+                              f"after a refused writing session on a read-only handle a second process could not start a session ({ans})", rtag)
+                sesslib.force_cleanup(col)
+            elif lib != expected:
+                ctx.violation("C04:completed-session-record-lost" if any(lib.get(k) != v for k, v in expected.items())
+                              else "C04:unexpected-record-in-library",
+                              f"after a refused writing session on a read-only handle the library changed", rtag)
+            continue
+        reads = tuple(sorted(expected.keys())[:1]) if (kind == "reading" or si % 2 == 1) else ()
         out = sesslib.run_session(col, kind, fault, puts, cut=cut, in_body=in_body, reads=reads)
         for rk, rv in out.get("reads", {}).items():
             if fault not in ("atBegin", "atUpdate") and rv != expected.get(rk):
@@ -493,6 +523,9 @@ def run(ctx):
         for n in range(nscripts):
             ncols = ctx.rng.range(1, 3)
             bufs = [ctx.rng.choice([-1, 0, 64, 1_000_000]) for _ in range(ncols)]
+            for ci in range(1, ncols):
+                if ctx.rng.chance(1, 4):
+                    bufs[ci] = "ro"          # a read-only handle among the long-lived collection objects
             with_bad = (n % 3 == 2)      # every third script injects value-encoder faults (checked by the oracle only)
             script = gen_script(ctx.rng, ncols, ctx.rng.range(3, 8), bufs, allow_bad=with_bad)
             with_bad = any(s_[2] == "badValue" for s_ in script)
